@@ -55,3 +55,10 @@ RULES = [
     ("C07.EMIT", "emitted branch selection: comparison with the count, first arm on Less for ? / Equal for !", p_c03.rule_area),
     ("C07.EMITSET", "the area emitter has no other comparison template", p_c03.rule_templateset),
 ]
+
+
+# rules of other properties re-run under this property's name; resolved by rules/main.py once every module can be
+# imported (the owners import this module themselves)
+DEFERRED_BUNDLES = [
+    {'prop': 'C07', 'tag': 'INT', 'module': 'p_c05', 'only': None, 'skip': (), 'why': 'comparison cross-multiplies big integers'},
+]
